@@ -394,12 +394,13 @@ func genProgram(r *gen.R, cfg Cfg, o ProgOpts) []WStep {
 		}
 		prog = append(prog, s)
 		open = s.Kind == WNext && !s.Explicit
+		if o.Invalid && r.Chance(1, 3) {
+			prog = append(prog, WStep{Kind: WInvalid, Invalid: r.Intn(nInvalid)})
+			open = false
+		}
 	}
 	return prog
 }
-
-// Invalid requests (C10). Each must fail and write nothing.
-const nInvalid = 9
 
 // oddReader feeds ReadFrom in awkward ways.
 type oddReader struct {
@@ -451,6 +452,19 @@ type Sent struct {
 	CompressedExpected bool
 }
 
+// Call is one public API call made by the Writer.
+type Call struct {
+	Step        int
+	Name        string // WriteMessage NextWriter Write WriteString ReadFrom Close WriteControl WriteJSON NewPreparedMessage WritePreparedMessage SetWriteDeadline
+	Err         error
+	OpsBefore   int // transport log length when the call started / ended
+	OpsAfter    int
+	BytesBefore int
+	BytesAfter  int
+	Deadline    time.Time // WriteControl: its argument; others: the connection deadline in force
+	Invalid     bool
+}
+
 // StepResult records the error of each step's calls.
 type StepResult struct {
 	Step int
@@ -470,6 +484,27 @@ type Writer struct {
 	Base     time.Time
 	AfterOp  func(step int, call string) // hook between calls (C09/C10 use it)
 	StopOnEr bool
+	NC       *xport.Conn // when set, calls are bracketed with transport counters
+	Calls    []Call
+	CurDL    time.Time // deadline last given to SetWriteDeadline
+	pending  Call
+}
+
+func (w *Writer) begin(step int, name string) {
+	w.pending = Call{Step: step, Name: name, Deadline: w.CurDL}
+	if w.NC != nil {
+		w.pending.OpsBefore = len(w.NC.Ops())
+		w.pending.BytesBefore = w.NC.WrittenLen()
+	}
+}
+
+func (w *Writer) end(err error) {
+	w.pending.Err = err
+	if w.NC != nil {
+		w.pending.OpsAfter = len(w.NC.Ops())
+		w.pending.BytesAfter = w.NC.WrittenLen()
+	}
+	w.Calls = append(w.Calls, w.pending)
 }
 
 func NewWriter(c *ws.Conn, cfg Cfg) *Writer {
@@ -491,7 +526,9 @@ func (w *Writer) CloseOpen() error {
 	if w.open == nil {
 		return nil
 	}
+	w.begin(len(w.Results), "Close")
 	err := w.open.Close()
+	w.end(err)
 	w.Sent[w.openIdx].Err = err
 	w.Sent[w.openIdx].Completed = err == nil
 	w.open, w.openIdx = nil, -1
@@ -516,38 +553,57 @@ func (w *Writer) compressedNow(t int) bool {
 // Do executes one step and returns the errors of its calls.
 func (w *Writer) Do(i int, s WStep) StepResult {
 	res := StepResult{Step: i}
-	add := func(err error) { res.Errs = append(res.Errs, err) }
+	call := func(name string, f func() error) error {
+		w.begin(i, name)
+		err := f()
+		w.end(err)
+		res.Errs = append(res.Errs, err)
+		return err
+	}
 	c := w.C
+	closeOpen := func() {
+		if w.open != nil {
+			wr := w.open
+			idx := w.openIdx
+			w.open, w.openIdx = nil, -1
+			err := call("Close", wr.Close)
+			w.Sent[idx].Err = err
+			w.Sent[idx].Completed = err == nil
+		}
+	}
 	switch s.Kind {
 	case WMsg, WCtlMsg:
 		w.implicitClosed()
-		err := c.WriteMessage(s.Type, s.payload)
-		add(err)
+		err := call("WriteMessage", func() error { return c.WriteMessage(s.Type, s.payload) })
 		w.Sent = append(w.Sent, Sent{Type: s.Type, Data: s.payload, Step: i, Err: err, Completed: err == nil, CompressedExpected: w.compressedNow(s.Type)})
 	case WJSON:
 		w.implicitClosed()
-		err := c.WriteJSON(s.jsonVal)
-		add(err)
+		err := call("WriteJSON", func() error { return c.WriteJSON(s.jsonVal) })
 		w.Sent = append(w.Sent, Sent{Type: 1, Data: s.payload, Step: i, Err: err, Completed: err == nil, CompressedExpected: w.compressedNow(1)})
 	case WPrepared:
-		if w.open != nil {
-			add(w.CloseOpen())
-		}
+		closeOpen()
 		cp := append([]byte(nil), s.payload...)
-		pm, err := ws.NewPreparedMessage(s.Type, cp)
-		add(err)
+		var pm *ws.PreparedMessage
+		err := call("NewPreparedMessage", func() error {
+			var e error
+			pm, e = ws.NewPreparedMessage(s.Type, cp)
+			return e
+		})
 		if err == nil {
 			for j := range cp { // the caller's slice may be reused
 				cp[j] ^= 0x5a
 			}
-			err = c.WritePreparedMessage(pm)
-			add(err)
+			err = call("WritePreparedMessage", func() error { return c.WritePreparedMessage(pm) })
 		}
 		w.Sent = append(w.Sent, Sent{Type: s.Type, Data: s.payload, Step: i, Err: err, Completed: err == nil, CompressedExpected: w.compressedNow(s.Type)})
 	case WNext, WCtlNext:
 		w.implicitClosed()
-		wr, err := c.NextWriter(s.Type)
-		add(err)
+		var wr io.WriteCloser
+		err := call("NextWriter", func() error {
+			var e error
+			wr, e = c.NextWriter(s.Type)
+			return e
+		})
 		snt := Sent{Type: s.Type, Data: s.payload, Step: i, Err: err, CompressedExpected: w.compressedNow(s.Type)}
 		if err != nil {
 			w.Sent = append(w.Sent, snt)
@@ -561,15 +617,16 @@ func (w *Writer) Do(i int, s WStep) StepResult {
 			var n int
 			switch p.How {
 			case PartWrite:
-				n, werr = wr.Write(chunk)
+				werr = call("Write", func() error { var e error; n, e = wr.Write(chunk); return e })
 			case PartWriteString:
-				n, werr = io.WriteString(wr, string(chunk))
+				werr = call("WriteString", func() error { var e error; n, e = io.WriteString(wr, string(chunk)); return e })
 			case PartReadFrom:
-				var n64 int64
-				n64, werr = io.Copy(wr, onlyReader{&oddReader{data: chunk, piece: p.Piece, eofWith: p.EOFWith, zero: p.Zero}})
-				n = int(n64)
+				werr = call("ReadFrom", func() error {
+					n64, e := io.Copy(wr, onlyReader{&oddReader{data: chunk, piece: p.Piece, eofWith: p.EOFWith, zero: p.Zero}})
+					n = int(n64)
+					return e
+				})
 			}
-			add(werr)
 			if werr == nil && n != len(chunk) {
 				werr = fmt.Errorf("short write %d of %d without error", n, len(chunk))
 				res.Note = werr.Error()
@@ -584,22 +641,23 @@ func (w *Writer) Do(i int, s WStep) StepResult {
 		if werr != nil {
 			snt.Err = werr
 			w.Sent = append(w.Sent, snt)
-			cerr := wr.Close()
-			add(cerr)
+			call("Close", wr.Close)
 			break
 		}
 		w.Sent = append(w.Sent, snt)
 		if s.Explicit {
-			cerr := wr.Close()
-			add(cerr)
+			cerr := call("Close", wr.Close)
 			w.Sent[len(w.Sent)-1].Err = cerr
 			w.Sent[len(w.Sent)-1].Completed = cerr == nil
 		} else {
 			w.open, w.openIdx = wr, len(w.Sent)-1
 		}
 	case WControl:
+		w.begin(i, "WriteControl")
+		w.pending.Deadline = w.dl(s.DL)
 		err := c.WriteControl(s.Type, s.payload, w.dl(s.DL))
-		add(err)
+		w.end(err)
+		res.Errs = append(res.Errs, err)
 		w.Sent = append(w.Sent, Sent{Type: s.Type, Data: s.payload, Step: i, Err: err, Completed: err == nil})
 	case WSetComp:
 		c.EnableWriteCompression(s.Enable)
@@ -614,9 +672,10 @@ func (w *Writer) Do(i int, s WStep) StepResult {
 			res.Note = fmt.Sprintf("SetCompressionLevel(%d) accepted", s.Level)
 		}
 	case WDeadline:
-		add(c.SetWriteDeadline(w.dl(s.DL)))
+		call("SetWriteDeadline", func() error { return c.SetWriteDeadline(w.dl(s.DL)) })
+		w.CurDL = w.dl(s.DL)
 	case WInvalid:
-		w.doInvalid(s, &res)
+		w.doInvalid(i, s, &res)
 	}
 	if w.AfterOp != nil {
 		w.AfterOp(i, "step")
@@ -626,28 +685,46 @@ func (w *Writer) Do(i int, s WStep) StepResult {
 }
 
 var big126 = bytes.Repeat([]byte{'x'}, 126)
+var big700 = bytes.Repeat([]byte{'y'}, 700)
 
-// doInvalid issues one invalid request; every call in it must fail.
-func (w *Writer) doInvalid(s WStep, res *StepResult) {
+// Invalid requests (C10). Each must fail and write nothing.
+const nInvalid = 10
+
+// doInvalid issues one invalid request; every call marked Invalid must fail.
+func (w *Writer) doInvalid(i int, s WStep, res *StepResult) {
 	c := w.C
-	add := func(err error) { res.Errs = append(res.Errs, err) }
+	call := func(name string, mustFail bool, f func() error) error {
+		w.begin(i, name)
+		w.pending.Invalid = mustFail
+		err := f()
+		w.end(err)
+		res.Errs = append(res.Errs, err)
+		return err
+	}
 	switch s.Invalid {
 	case 0, 1, 2, 3, 4:
 		t := []int{0, 3, 7, 11, -1}[s.Invalid]
 		w.implicitClosed()
-		add(c.WriteMessage(t, []byte("abc")))
+		call("WriteMessage", true, func() error { return c.WriteMessage(t, []byte("abc")) })
 	case 5:
-		t := []int{0, 3, 7, 11, -1, 15, 256 + 1}[int(s.Invalid)%7]
+		t := []int{0, 3, 7, 11, -1, 15, 257}[i%7]
 		w.implicitClosed()
-		_, err := c.NextWriter(t)
-		add(err)
+		call("NextWriter", true, func() error { _, e := c.NextWriter(t); return e })
 	case 6:
-		add(c.WriteControl(9, big126, time.Time{}))
+		call("WriteControl", true, func() error { return c.WriteControl(9, big126, time.Time{}) })
 	case 7:
-		add(c.WriteControl(1, []byte("abc"), time.Time{}))
+		call("WriteControl", true, func() error { return c.WriteControl(1, []byte("abc"), time.Time{}) })
 	case 8:
 		w.implicitClosed()
-		add(c.WriteMessage(9+int(s.Invalid)%2, big126))
+		call("WriteMessage", true, func() error { return c.WriteMessage(9+i%2, big126) })
+	case 9:
+		// a control message the writer would have to fragment
+		w.implicitClosed()
+		var wr io.WriteCloser
+		if call("NextWriter", false, func() error { var e error; wr, e = c.NextWriter(9 + i%2); return e }) == nil {
+			call("Write", false, func() error { _, e := wr.Write(big700); return e })
+			call("Close", true, wr.Close)
+		}
 	}
 }
 
